@@ -147,6 +147,53 @@ fn operator_matrix(ctx: &Ctx, cases: &mut Vec<(Case, bool)>) {
     }
 }
 
+// Whether a cell is a type error depends on the kinds alone, never on the
+// values: every out-of-domain cell again over values that look convertible
+// (numeric strings, empty and one-element containers, 0 / 1, large numbers).
+fn zoo(k: K) -> Vec<String> {
+    match k {
+        K::Null => vec!["null".into(), "nul".into()],
+        K::Bool => vec!["true".into(), "false".into(), "(1 < 2)".into()],
+        K::Int => vec!["0".into(), "1".into(), "-1".into(), "5".into(), "1000003".into(), "65536".into(), "9223372036854775807".into(), "(2 - 2)".into()],
+        K::Str => vec!["\"\"".into(), "\"5\"".into(), "\"0\"".into(), "\"-1\"".into(), "\"true\"".into(), "\"null\"".into(), "\"[]\"".into(), "\" 12 \"".into(), "\"1e3\"".into(), format!("\"{}\"", "1234567890".repeat(12)), "\"é\"".into(), "\"a\"".into()],
+        K::List => vec!["[]".into(), "[5]".into(), "[\"5\"]".into(), "[[]]".into(), "[0, 0]".into(), "[true]".into(), "[null]".into(), format!("[{}]", vec!["0"; 70].join(", ")), "(0 .. 3)".into()],
+        K::Obj => vec!["{}".into(), "{\"a\": 1}".into(), "{\"0\": 0}".into(), "{\"length\": 1, \"value\": 5}".into(), "{\"type\": \"int\"}".into()],
+        K::Func => vec!["usr".into(), "anon".into(), "(fn () { return 5; })".into()],
+        K::Builtin => vec!["print".into(), "\"a\"->len".into(), "5->type".into()],
+    }
+}
+
+fn value_zoo(ctx: &Ctx, cases: &mut Vec<(Case, bool)>) {
+    let stride = if ctx.tier == Tier::Quick { 7 } else { 1 };
+    let mut n = 0usize;
+    for op in ALL_OPS {
+        for l in KINDS {
+            for r in KINDS {
+                if in_domain(op, l, r) {
+                    continue;
+                }
+                for (ia, a) in zoo(l).iter().enumerate() {
+                    for (ib, b) in zoo(r).iter().enumerate() {
+                        n += 1;
+                        // The first value pair of every cell always; the others strided.
+                        if (ia, ib) != (0, 0) && n % stride != ctx.seed as usize % stride {
+                            continue;
+                        }
+                        let src = format!("{PRELUDE}print(\"before\")\nprint({a} {} {b})\n", op.sym());
+                        let parts = vec![op.sym().to_string(), l.type_name().to_string(), r.type_name().to_string()];
+                        ctx.label("operator cell over look-alike values: type error");
+                        let (mut c, nt) = err_case("operator_values", src, PRELUDE_LINES + 2, parts, format!("{} {:?} {:?} with {a} and {b}", op.sym(), l, r));
+                        if let Pred::Expect(e) = &mut c.pred {
+                            e.stdout = Some(b"before\n".to_vec());
+                        }
+                        cases.push((c, nt));
+                    }
+                }
+            }
+        }
+    }
+}
+
 // `==` / `!=` reaching the pair below the top level (same rule, C10 covers
 // the general case).
 fn nested_eq_matrix(ctx: &Ctx, cases: &mut Vec<(Case, bool)>) {
@@ -364,12 +411,13 @@ pub fn got_type_ok(stderr: &str, want: &str) -> Result<(), String> {
 }
 
 pub fn run(ctx: &Ctx) {
-    ctx.set_rule("the full matrix: 15 binary operators x 8 x 8 ordered kinds (plain form), 5 arithmetic operators x 64 x 4 op-assign target forms, 35 typed contexts x 8 kinds x 2 representatives, type functions x kinds; oracle: the table in the property statement (in domain => value checked; otherwise exit 103 naming operator and both operand types in order with the names ->type() uses). Every cell is non-trivial; distinct = distinct cells");
+    ctx.set_rule("the full matrix: 15 binary operators x 8 x 8 ordered kinds (plain form), 5 arithmetic operators x 64 x 4 op-assign target forms, 35 typed contexts x 8 kinds x 2 representatives, every out-of-domain operator cell again over 2..12 look-alike values per kind (numeric strings, empty / one-element / 70-element containers, 0 / 1 / large integers; quick: one pair per cell plus a seventh of the rest), type functions x kinds; oracle: the table in the property statement (in domain => value checked; otherwise exit 103 naming operator and both operand types in order with the names ->type() uses). Every cell is non-trivial; distinct = distinct cells");
     ctx.replay_corpus(None);
     let mut cases = vec![];
     operator_matrix(ctx, &mut cases);
     op_assign_matrix(ctx, &mut cases);
     nested_eq_matrix(ctx, &mut cases);
+    value_zoo(ctx, &mut cases);
     context_matrix(ctx, &mut cases);
     type_function_matrix(ctx, &mut cases);
     ctx.mark_exhaustive("operator x kind x kind matrix, op-assign matrix, context x kind matrix");
